@@ -23,6 +23,7 @@ type inputSource struct {
 	ralpha  string
 	seed    int64
 	infile  string
+	prefix  string
 	chunks  int
 	outPref string
 	curDir  string // "dir" attribute of the current input when the line is an object {"dir":..,"buf":[..]}
@@ -32,6 +33,7 @@ func (s *inputSource) flags(fs *flag.FlagSet) {
 	fs.StringVar(&s.alpha, "alpha", "", "alphabet for exhaustive enumeration: comma separated byte values")
 	fs.IntVar(&s.maxLen, "max", -1, "enumerate every string of length <= max over -alpha")
 	fs.IntVar(&s.minLen, "min", 0, "minimum length for enumeration")
+	fs.StringVar(&s.prefix, "prefix", "", "enumerate only strings starting with these bytes (comma separated values)")
 	fs.IntVar(&s.random, "random", 0, "number of seed-random strings")
 	fs.IntVar(&s.rlen, "rlen", 12, "maximum length of random strings")
 	fs.StringVar(&s.ralpha, "ralpha", "", "alphabet for random strings (default: -alpha)")
@@ -77,7 +79,13 @@ func (s *inputSource) each(f func(in string)) (int, error) {
 				gen(append(prefix, c))
 			}
 		}
-		gen(make([]byte, 0, s.maxLen+1))
+		pre, err := parseAlpha(s.prefix)
+		if err != nil {
+			return 0, err
+		}
+		start := make([]byte, 0, s.maxLen+1)
+		start = append(start, pre...)
+		gen(start)
 	}
 	if s.random > 0 {
 		ra, err := parseAlpha(s.ralpha)
